@@ -11,6 +11,7 @@ use ctx::{Ctx, Exec};
 fn exec_for(prop: &str) -> Exec {
     match prop {
         "C10" | "C11" | "C14" => props::text::exec,
+        "C12" => props::edit::exec,
         _ => panic!("unknown property {prop}"),
     }
 }
@@ -32,6 +33,7 @@ fn main() {
                 "C10" => props::text::run_c10(&mut c),
                 "C11" => props::text::run_c11(&mut c),
                 "C14" => props::text::run_c14(&mut c),
+                "C12" => props::edit::run_c12(&mut c),
                 _ => unreachable!(),
             }
             c.finish(dir);
